@@ -142,7 +142,55 @@ def run_case(case, res):
                         o3 = lib.outcome(lambda: f[i](args))
                         if o3[0] != "ok" or not _row_ok(o3[1], T[i], exact):
                             res.violation("index", f"f[{i}](nodes) != f[{i}, p](nodes); {where}", index="single_int", **tags)
+    mutation_history(res, U, p, n)
     res.observe(sorted(res.outcomes.items()))
+
+
+def mutation_history(res, U, p, n):
+    """one Function object evaluated, its knot vector changed in place through the public API (degree setter, knot
+    insertion/removal on f.knotvector, shift/scale, assignment), evaluated again: the table must follow the knot vector"""
+    if p > 3:
+        return
+    ks = rb.knots_of(U)
+    mid = ks[0] + (ks[1] - ks[0]) * F(2, 5)
+    f = lib.Function(lib.mk_kv(U))
+    steps = [("initial", lambda: None, list(U), p)]
+    V1 = sorted(list(U) + ks)
+    steps.append(("degree+1", lambda: setattr(f, "degree", p + 1), V1, p + 1))
+    V2 = sorted(V1 + [mid])
+    steps.append(("knotvector.insert", lambda: f.knotvector.insert([mid]), V2, p + 1))
+    steps.append(("knotvector.remove", lambda: f.knotvector.remove([mid]), V1, p + 1))
+    steps.append(("degree-1", lambda: setattr(f, "degree", p), list(U), p))
+    V3 = [2 * k + 1 for k in U]
+    steps.append(("scale+shift", lambda: f.knotvector.scale(2).shift(1), V3, p))
+    V4 = sorted(list(U) + [mid])
+    steps.append(("assign", lambda: setattr(f, "knotvector", lib.mk_kv(V4)), V4, p))
+    done = []
+    for name, action, V, q in steps:
+        res.transition()
+        o = lib.outcome(action)
+        done.append(name)
+        tags = dict(history=name, rep="frac", rational=False, sub="history")
+        where = f"Function({U}) after {done}"
+        if o[0] != "ok":
+            res.violation("exception", f"{where}: raised {o[1]}: {o[2]}", exc=o[1], **tags)
+            return
+        if lib.exact_kv(f.knotvector) != V or f.degree != q:
+            res.violation("history_knots", f"{where}: knot vector {list(f.knotvector)} degree {f.degree}, expected {V}", **tags)
+            return
+        nn = len(V) - q - 1
+        prm = al.params(V, q)
+        for j in range(q + 1):
+            res.transition()
+            T = ref_table(V, j, None, prm, nn)
+            out = lib.outcome(lambda: f[:, j](prm))
+            if out[0] != "ok":
+                res.violation("exception", f"{where}: f[:, {j}](nodes) raised {out[1]}: {out[2]}", exc=out[1], **tags)
+                return
+            if not _table_ok(res, out[1], T, True, where + f" j={j}", "f[:, j](seq)", tags):
+                return
+        res.state((tuple(U), "history", name))
+        res.outcome("history_step")
 
 
 def _row_ok(row, exp, exact):
